@@ -23,6 +23,7 @@ structure Thr where
   stage : Nat := 0               -- 0 = first closeErr read not yet done
   inClose : Bool := false        -- executing channel.Close as the winner
   closeVia : String := ""        -- "op" (a cl call) or "sender" (failure path)
+  stallOp : String := ""         -- stalled transport: the write this thread is parked in ("write" | "writev")
   deriving Inhabited
 
 /-- one observable event of the implementation, with the step it happened in -/
@@ -49,6 +50,7 @@ structure S where
   nWrites : Nat := 0
   failNext : Bool := false               -- the harness announced that the next transport write fails
   closeSleeps : Nat := 0                 -- polls of the winning Close (grace period accounting)
+  stalled : Bool := false                -- the peer does not read: transport writes end (failing) only once the transport is closed
   conn : Option Bytes := none            -- buffered scenarios: what the connection under the library's buffered transport received
   deriving Inhabited
 
@@ -147,7 +149,10 @@ def clientStep (s : S) (t : Thr) (label : String) (case : Int) : S × Thr × Lis
       let e := if s.st.closeErrSet && s.closeErr != "nil" then s.closeErr else "chclosed"
       (s, finish t, [retEv t 0 e])
     else (fail s "close error read without closed flag", t, [])
-  | "asyncWrite.pool-get" | "asyncWritev.pool-get" | "CtxWrite1.tr-deadline" | "CtxWritev.tr-deadline" => (s, t, [])
+  | "asyncWrite.pool-get" | "asyncWritev.pool-get" => (s, t, [])
+  -- the write deadline belongs to the shared transport: only a synchronous channel's caller (who holds the write lock) arms it
+  | "CtxWrite1.tr-deadline" | "CtxWritev.tr-deadline" =>
+    if s.st.sync then (s, t, []) else (fail s s!"{t.name} arms the transport's write deadline on a queued channel (the sender owns the transport)", t, [])
   -- a foreign user of the buffer pool scribbling on buffers it obtained: five rounds, no channel action
   | "ps" => if t.stage + 1 < 5 then (s, { t with stage := t.stage + 1 }, []) else (s, finish t, [retEv t 0 "nil"])
   | "asyncWrite.select" | "asyncWritev.select" =>
@@ -168,12 +173,19 @@ def clientStep (s : S) (t : Thr) (label : String) (case : Int) : S × Thr × Lis
   | "write1.lock" | "Writev.lock" | "CtxWrite1.lock" | "CtxWritev.lock" => (act s .lock "lock", t, [])
   | "write1.tr-write" | "CtxWrite1.tr-write" | "Writev.tr-writev" | "CtxWritev.tr-writev" =>
     let op := if label.endsWith "tr-write" then "write" else "writev"
-    if s.st.trClosed then
+    if s.stalled then (s, { t with stallOp := op }, [])      -- parks inside the transport until it is closed
+    else if s.st.trClosed then
       let s := act s (.syncWrite (pkt t) false) "syncWrite(fail)"
       (s, finish t, [s!"tr:{op}:-!closed", retEv t 0 "trclosed"])
     else
       let shown := if op == "write" then hex (pkt t) else hexList t.bufs
       (act s (.syncWrite (pkt t) true) "syncWrite", t, [s!"tr:{op}:{shown}"])
+  | "tr.stalled" =>
+    -- resumed: the transport has been closed under the write
+    if !s.st.trClosed then (fail s s!"{t.name} left a stalled transport write although the transport is open", t, [])
+    else
+      let s := act s (.syncWrite (pkt t) false) "syncWrite(fail)"
+      (s, finish { t with stallOp := "" }, [s!"tr:{t.stallOp}:-!closed", retEv t 0 "trclosed"])
   | "write1.tr-flush" | "CtxWrite1.tr-flush" | "Writev.tr-flush" | "CtxWritev.tr-flush" =>
     let s := act s .syncFlush "syncFlush"
     (s, finish t, ["tr:flush", retEv t len "nil"])
@@ -189,8 +201,12 @@ def senderStep (s : S) (t : Thr) (label : String) (case : Int) : S × Thr × Lis
   | "start" => ({ (act s .exec "exec") with owner := t.name }, t, [])
   | "writeOnce.select" =>
     if case == 0 then (act s .sndRecv "sndRecv", t, []) else (act s .sndDefault "sndDefault", t, [])
+  | "tr.stalled" =>
+    if !s.st.trClosed then (fail s s!"{t.name} left a stalled transport write although the transport is open", t, [])
+    else (act s (.sndWritev false) "sndWritev(fail)", { t with closeArg := "other" }, ["tr:writev:-!closed"])
   | "writeOnce.tr-writev" =>
-    if s.st.trClosed then (act s (.sndWritev false) "sndWritev(fail)", { t with closeArg := "other" }, ["tr:writev:-!closed"])
+    if s.stalled then (s, t, [])
+    else if s.st.trClosed then (act s (.sndWritev false) "sndWritev(fail)", { t with closeArg := "other" }, ["tr:writev:-!closed"])
     else if s.failNext then ({ (act s (.sndWritev false) "sndWritev(injected)") with failNext := false }, { t with closeArg := "other" }, ["tr:writev:-!injected"])
     else
       let b := s.st.batch
@@ -303,7 +319,7 @@ def firstSome {β : Type} (l : List β) (f : β → Option String) : Option Stri
   l.foldl (fun acc x => match acc with | some v => some v | none => f x) none
 
 /-- the properties' predicates on the observable event stream of one execution -/
-def specCheck (prop : String) (s : S) (endStatus : String) : Option String :=
+def specCheck (prop : String) (s : S) (endStatus : String) (parked : String := "-") : Option String :=
   let evs := s.evs.reverse
   let calls := collectCalls evs
   let units := collectUnits s.st.sync evs
@@ -372,6 +388,11 @@ def specCheck (prop : String) (s : S) (endStatus : String) : Option String :=
       some s!"IsActive() returned true after a Close call had returned ({c.tid}#{c.idx})" else none)
   -- C05 / C07: a transport failure in the sender closes the channel (transport closed, context cancelled)
   let c6c := if injected && endStatus == "quiescent" && trCloseStep == 1000000 then some "sender transport failure did not close the channel" else none
+  -- C05: a Close call returns (in these scenarios nothing but the channel itself can keep it: a stalled transport write ends when the transport is closed)
+  let c6e := if endStatus == "deadlock" || (endStatus == "quiescent" && s.stalled && (parked.splitOn "@Close.").length > 1) then
+      firstSome closeBegins (fun c => if c.retStep.isNone then
+        some s!"Close never returns: {c.tid}#{c.idx} is blocked for ever (transport closed {(evs.filter (·.text == "tr:close")).length} times) while a transport write that only transport.Close can end is in flight" else none)
+    else none
   let c6d := if endStatus == "steplimit" then some "execution does not terminate (a goroutine spins forever)" else none
   -- C05: the transport is closed at most once
   let c7 := if (evs.filter (·.text == "tr:close")).length > 1 then some "transport closed more than once" else none
@@ -399,7 +420,7 @@ def specCheck (prop : String) (s : S) (endStatus : String) : Option String :=
         some s!"the connection received only {w.length} of the {flushed.length} bytes written before the last flush"
       else none
   c9.orElse fun _ => c10.orElse fun _ =>
-  c1.orElse (fun _ => c2.orElse (fun _ => c3.orElse (fun _ => c4.orElse (fun _ => c5.orElse (fun _ => c6.orElse (fun _ => c6b.orElse (fun _ => c6c.orElse (fun _ => c6d.orElse (fun _ => c7.orElse (fun _ => c8))))))))))
+  c1.orElse (fun _ => c2.orElse (fun _ => c3.orElse (fun _ => c4.orElse (fun _ => c5.orElse (fun _ => c6.orElse (fun _ => c6b.orElse (fun _ => c6c.orElse (fun _ => c6e.orElse (fun _ => c6d.orElse (fun _ => c7.orElse (fun _ => c8)))))))))))
 
 def handle (prop : String) (s : S) : List String → S × String
   | ["cfg", sync, cap, until_] =>
@@ -408,6 +429,7 @@ def handle (prop : String) (s : S) : List String → S × String
     ({ st := { sync := sync == "1", cap := cap.toNat?.getD 1, untilW := until_ == "1" }, ctxs := [false, false, false, false] }, "ok")
   | ["conn", h] => ({ s with conn := some ((unhex h).getD []) }, "ok")
   | ["failwrite", k] => ({ s with failAt := k.toNat?.getD 0 }, "ok")
+  | ["stalled"] => ({ s with stalled := true }, "ok")
   | "thr" :: name :: ops => (setThr s { name := name, ops := ops, closeVia := "op" }, "ok")
   | "step" :: tid :: label :: case :: events =>
     let blocked := events.filter (·.startsWith "blocked=")
@@ -424,7 +446,7 @@ def handle (prop : String) (s : S) : List String → S × String
       | _ => s) s
     (doStep s tid label (case.toInt?.getD (-2)) events, "ok")
   | ["end", status, parked] =>
-    let spec := specCheck prop s status
+    let spec := specCheck prop s status parked
     let s' : S := {}
     match spec with
     | some v => (s', s!"specviol {v}")
